@@ -247,6 +247,13 @@ def run_stmt(s, regs, ins, outs, st):
         elif op == "list": v = [regs[i] for i in s[2]]
         elif op == "index": v = regs[s[2]][s[3]]
         elif op == "bget": v = getattr(st["bv"], "v%d" % s[2])
+        elif op in ("permute", "poseidon"):
+            import pysnark.poseidon_hash as ph
+            v = ph.permute(regs[s[3]]) if op == "permute" else ph.poseidon_hash(regs[s[3]])
+        elif op == "ggh":
+            import pysnark.ggh_hash as gh
+            st["ggh_coeffs"] = [gh.SHA512_prng(i) for i in range(len(regs[s[3]]))]
+            v = gh.ggh_hash(regs[s[3]])
         elif op == "pack": v = mk_schema(s[2]).pack(regs[s[3]])
         elif op == "unpack": v = mk_schema(s[2]).unpack(regs[s[3]], 0)
         elif op == "snark":
@@ -328,7 +335,7 @@ def run_case(case):
            "dig": [D.digest_vars(p, R.kinds, R.pubs, R.privs), D.digest_cons(p, cons), D.digest_outs(p, outs), D.digest_exn(p, exn, cur)],
            "unsat": unsat[:5], "incoherent": st["coh"][:5], "mutated": st["mutated"][:5], "floatbad": st.get("floatbad", False), "pc": st["pc"],
            "shape": [D.digest_cons(p, cons), "".join(R.kinds), D.digest_outs(p, [(t, 0, l) for t, v, l in outs if t > 0])],
-           "guard_conds": st["guard_conds"][:50], "snark_returns": st["snark_returns"][:20], "pubs_order": list(R.pubs)[:200], "final_bvals": st["final_bvals"],
+           "ggh_coeffs": st.get("ggh_coeffs"), "guard_conds": st["guard_conds"][:50], "snark_returns": st["snark_returns"][:20], "pubs_order": list(R.pubs)[:200], "final_bvals": st["final_bvals"],
            "globals": [rt.guard is None, bool(rt._ignore_errors), LinComb.ONE is ONE0],
            "final_regs": {str(k): plain(v) for k, v in list(st.get("regs", {}).items())[:200]},
            "vals": st["vals"][:300], "probes": st["probes"][:50], "exn_ctx": st["exn_ctx"], "exn_pc": st.get("exn_pc")}
